@@ -55,6 +55,6 @@ def replay(path):
     f = d.get('failing_input')
     print(json.dumps(f or d['broken'], indent=1, default=str)[:3000])
     if f and f.get('kind') == 'c08':
-        cfg = {k: f[k] for k in ('method', 'sde_type', 'noise', 'd', 'm', 'batch', 'seed', 'dt', 'ts', 'grad_free', 'adaptive')}
+        cfg = {k: f[k] for k in ('method', 'sde_type', 'noise', 'd', 'm', 'batch', 'seed', 'dt', 'ts', 'grad_free', 'adaptive', 'y0_grad') if k in f}
         print('now (backprop, finite difference):', osde.c08_case(**cfg))
     return 1
